@@ -38,6 +38,20 @@ pub struct Tc<'a> {
 	pub outcomes: Vec<bool>,
 	/// raw ops of the most recent successful acquisition call (C08 order monitor)
 	pub last_ops: Vec<RawRec>,
+	/// C10 PoisonModel, keyed by the lock id of a Poisonable leaf
+	pub pois: Option<PoisModel>,
+}
+
+#[derive(Default, Clone, Debug)]
+pub struct PoisModel {
+	/// lock id -> route of the panicking exclusive hold that makes poisoning mandatory
+	pub must: std::collections::HashMap<LockId, String>,
+	/// lock ids that may be poisoned (any panic during any hold since the last clear)
+	pub may: std::collections::HashSet<LockId>,
+	/// ids of Poisonable leaves
+	pub tracked: std::collections::HashSet<LockId>,
+	pub checks: u64,
+	pub poisoned_seen: u64,
 }
 
 pub fn expected_ids_member(a: &Arena, m: &MemberSpec, out: &mut Vec<LockId>) {
@@ -93,6 +107,7 @@ impl<'a> Tc<'a> {
 			fault_mode: false,
 			outcomes: Vec::new(),
 			last_ops: Vec::new(),
+			pois: None,
 		}
 	}
 
@@ -460,6 +475,45 @@ impl<'a> Tc<'a> {
 				}
 			}
 		}
+		// C10: poison verdict of every Poisonable position against the PoisonModel
+		if let Some(pm) = self.pois.as_mut() {
+			for (i, (_, verdict)) in flat.iter().enumerate() {
+				let lock = exp[i];
+				if !pm.tracked.contains(&lock) {
+					continue;
+				}
+				pm.checks += 1;
+				match verdict {
+					None => w.violate(
+						"C10",
+						"no_poison_verdict",
+						format!("{}: position {i} (poisonable lock {lock}) carries no Ok/Err verdict", acq_desc(acq)),
+					),
+					Some(p) => {
+						if *p {
+							pm.poisoned_seen += 1;
+						}
+						if let (Some(route), false) = (pm.must.get(&lock), *p) {
+							w.violate(
+								"C10",
+								"not_poisoned_after_panic",
+								format!(
+									"route={route}|{}: lock {lock} reports Ok although a panic unwound during an exclusive hold via {route}",
+									acq_desc(acq)
+								),
+							);
+						}
+						if *p && !pm.may.contains(&lock) {
+							w.violate(
+								"C10",
+								"spuriously_poisoned",
+								format!("{}: lock {lock} reports Err but no panic happened during a hold since the last clear", acq_desc(acq)),
+							);
+						}
+					}
+				}
+			}
+		}
 		// scheduling point inside the critical section
 		w.yield_point(tid);
 		for (i, (pay, _)) in flat.iter_mut().enumerate() {
@@ -493,13 +547,25 @@ impl<'a> Tc<'a> {
 		}
 		if acq.panic {
 			self.stats.panics_injected += 1;
+			if let Some(pm) = self.pois.as_mut() {
+				let route = Self::label(acq);
+				for (i, (pay, _)) in flat.iter().enumerate() {
+					let lock = exp[i];
+					if pm.tracked.contains(&lock) {
+						pm.may.insert(lock);
+						if matches!(pay, Pay::Mut(_)) {
+							pm.must.entry(lock).or_insert_with(|| route.to_string());
+						}
+					}
+				}
+			}
 			drop(exit);
 			resume_unwind(Box::new(InjectedPanic(tid)));
 		}
 		drop(exit);
 	}
 
-	fn label(acq: &Acq) -> &'static str {
+	pub fn label(acq: &Acq) -> &'static str {
 		match (&acq.target, acq.api) {
 			(Target::Leaf(_), Api::Guard | Api::GuardUnlock) => "leaf.lock",
 			(Target::Leaf(_), Api::TryLoop) => "leaf.try_lock",
